@@ -19,7 +19,7 @@ TECHNIQUE = ('complete enumeration of the finite configuration space (input type
              'condensed x identical/different) over fixed and Hypothesis-generated document sets, run through main() in-process')
 RULE = ("Configurations (enumerated completely): input type {json, json5, yaml, csv, xml, html, plist, pickle} x --format "
         "{none + the same eight} x mode {full, -e, -d} x style {default, --color, --no-color, --html, --html --color, --html --no-color} x {-j, not} x "
-        "{different files, identical files}: 648 invocations per input type and document set. Document sets: 3 fixed per input type "
+        "{different files, identical files}: 648 invocations per input type and document set, plus 54 invocations per set (format x mode x {default, --no-color}) with status output ON and real output streams (files with descriptors, which selects the Printer's line-buffered tqdm.write path that a terminal or pipe gets). Document sets (also with control characters, elements gaining or losing text, and non-finite / extreme numbers): 3 fixed per input type "
         "(quick; one of them with characters every format must escape, and non-string mapping keys for yaml/pickle) / + 12 generated per input type (thorough; JSON-like documents, tables for CSV, element trees for "
         "XML/HTML, null-free documents for plist, pickle.dumps of documents for pickle). Oracle: main() returns 0 or 1 "
         "and no exception escapes; failures are bucketed by (exception type, innermost graphtage frame). Non-trivial: "
@@ -32,7 +32,7 @@ MANIFEST_TEXT = ("The whole cross product of input types, output formats, modes 
                  "enumerated for several document sets per input type; every invocation must complete with status 0 or 1.")
 MANIFEST_NOTE = "Trusts the in-process driver vf/cli.py to report exactly what escapes graphtage.__main__.main."
 DESIGN_REF = 'DESIGN.md section 3, C13'
-SHRINK = {'docs': ['a', 'b'], 'enums': {'mode': 'full', 'style': None, 'j': False, 'identical': False}}
+SHRINK = {'docs': ['a', 'b'], 'enums': {'mode': 'full', 'style': None, 'j': False, 'identical': False, 'status': False}}
 
 INPUTS = ['json', 'json5', 'yaml', 'csv', 'xml', 'html', 'plist', 'pickle']
 
@@ -91,19 +91,20 @@ P2 = {'name': 'y', 'list': [1, 3, {'a': 'b'}, []], 'flag': False, 'm': {}}
 T1 = [['a', 'b', 'c'], ['1', '2', '3']]
 T2 = [['a', 'b', 'd'], ['1', '5', '3'], ['x', 'y', 'z']]
 # documents with characters every output format has to escape, and (yaml/pickle only) non-string mapping keys
-E1 = {'note': 'say "hi" \\ back\nnext <b> & </b>', 'list': ['a&b', '<x>', "it's", '\t'], 'q"k': 1}
-E2 = {'note': 'say "ho" \\ back\nnext <i> & </i>', 'list': ['a&c', '<y>', "it's", ''], 'q"k': 2, 'new': '"'}
+E1 = {'note': 'say "hi" \\ back\nnext <b> & </b>', 'list': ['a&b', '<x>', "it's", '\t', 'two\nlines'], 'q"k': 1, 'same': 'first line\nsecond line\n'}
+E2 = {'note': 'say "ho" \\ back\nnext <i> & </i>', 'list': ['a&c', '<y>', "it's", '', 'two\nlines'], 'q"k': 2, 'new': '"', 'same': 'first line\nsecond line\n'}
 # (mappings with non-string keys are written as {'__pairs__': [[key, value], ...]} so that cases stay JSON replay files)
 K1 = {'__pairs__': [[1, 'one'], [2.5, ['x', {'__pairs__': [[3, None]]}]], [True, 'yes'], ['name', {'__pairs__': [[7, 7]]}]]}
 K2 = {'__pairs__': [[1, 'uno'], [2.5, ['x', {'__pairs__': [[4, 'q']]}]], ['name', {'__pairs__': [[7, 8], [8, 9]]}], [9, []]]}
-PE1 = {'note': 'say "hi" & <b>\nnext', 'list': ['a&b', '<x>'], 'k': 1.5}
-PE2 = {'note': 'say "ho" & <i>\nnext', 'list': ['a&c', '<y>', 'z'], 'k': 2.5}
+PE1 = {'note': 'say "hi" & <b>\nnext', 'list': ['a&b', '<x>'], 'k': 1.5, 'same': 'first line\nsecond line'}
+PE2 = {'note': 'say "ho" & <i>\nnext', 'list': ['a&c', '<y>', 'z'], 'k': 2.5, 'same': 'first line\nsecond line'}
 XE1 = {'tag': 'r', 'attrib': {'a': 'x"y', 'b': "q'&<"}, 'text': 'a < b & c > d "e"', 'children': [
-    {'tag': 'c', 'attrib': {}, 'text': 'line1\nline2', 'children': []}]}
+    {'tag': 'c', 'attrib': {}, 'text': 'line1\nline2', 'children': []}, {'tag': 'keep', 'attrib': {'t': 'x\ny'}, 'text': 'two\nlines', 'children': []}]}
 XE2 = {'tag': 'r', 'attrib': {'a': 'x"z', 'c': '&amp;'}, 'text': 'a < b & c > f', 'children': [
-    {'tag': 'c', 'attrib': {'n': '1'}, 'text': 'line1\nline3', 'children': []}, {'tag': 'd', 'attrib': {}, 'text': None, 'children': []}]}
-TE1 = [['a"b', 'c,d', 'e\nf'], ['<x>', '&', "'"]]
-TE2 = [['a"c', 'c,d', 'e\ng'], ['<y>', '&', '']]
+    {'tag': 'c', 'attrib': {'n': '1'}, 'text': 'line1\nline3', 'children': []}, {'tag': 'keep', 'attrib': {'t': 'x\ny'}, 'text': 'two\nlines', 'children': []},
+    {'tag': 'd', 'attrib': {}, 'text': None, 'children': []}]}
+TE1 = [['a"b', 'c,d', 'e\nf'], ['<x>', '&', "'"], ['two\nlines', 'same']]
+TE2 = [['a"c', 'c,d', 'e\ng'], ['<y>', '&', ''], ['two\nlines', 'same']]
 # control characters (an escape sequence, a bell, a form feed) in unchanged and in changed strings and keys
 C1 = {'colour': '\x1b[31mred\x1b[0m', 'bell': 'ding\x07', 'list': ['\x0c', 'plain', 'a\x1fb'], 'k\x01': 'v'}
 C2 = {'colour': '\x1b[32mgreen\x1b[0m', 'bell': 'ding\x07', 'list': ['\x0c', 'plane', 'a\x1fb', '\x08'], 'k\x01': 'w'}
@@ -118,10 +119,16 @@ XT5 = {'tag': 'r', 'attrib': {'a': '1'}, 'text': 'gone', 'children': [
     {'tag': 'x', 'attrib': {}, 'text': 'was', 'children': []}, {'tag': 'y', 'attrib': {}, 'text': None, 'children': []}]}
 XT6 = {'tag': 'r', 'attrib': {'a': '1'}, 'text': None, 'children': [
     {'tag': 'x', 'attrib': {}, 'text': None, 'children': []}, {'tag': 'y', 'attrib': {}, 'text': 'now', 'children': []}]}
+# non-finite and extreme numbers (accepted by every one of these input syntaxes)
+_INF, _NAN = float('inf'), float('nan')
+N1 = {'x': _NAN, 'y': [_INF, -_INF, 1.5, 1e308, -0.0], 'big': 2 ** 70}
+N2 = {'x': _INF, 'y': [_NAN, 1.5, 5e-324], 'z': -_INF, 'big': -2 ** 70}
+PN1 = {'x': _NAN, 'y': [_INF, -_INF, 1.5, 1e308, -0.0], 'big': 2 ** 62}
+PN2 = {'x': _INF, 'y': [_NAN, 1.5, 5e-324], 'z': -_INF, 'big': -2 ** 62}
 FIXED = {
-    'json': [(J1, J2), (J3, J4), (E1, E2), (C1, C2)], 'json5': [(J1, J2), (J3, J4), (E1, E2), (C1, C2)],
-    'yaml': [(J1, J2), (K1, K2), (E1, E2), (C1, C2)], 'pickle': [(J1, J2), (K1, K2), (E1, E2), (C1, C2)],
-    'plist': [(P1, P2), ([1, 'a'], ['a', 1, 2.5]), (PE1, PE2)], 'csv': [(T1, T2), ([['x']], [['x', 'y'], []]), (TE1, TE2), (TC1, TC2)],
+    'json': [(J1, J2), (J3, J4), (E1, E2), (C1, C2), (N1, N2)], 'json5': [(J1, J2), (J3, J4), (E1, E2), (C1, C2), (N1, N2)],
+    'yaml': [(J1, J2), (K1, K2), (E1, E2), (C1, C2), (N1, N2)], 'pickle': [(J1, J2), (K1, K2), (E1, E2), (C1, C2), (N1, N2)],
+    'plist': [(P1, P2), ([1, 'a'], ['a', 1, 2.5]), (PE1, PE2), (PN1, PN2)], 'csv': [(T1, T2), ([['x']], [['x', 'y'], []]), (TE1, TE2), (TC1, TC2)],
     'xml': [(X1, X2), (X3, X4), (XE1, XE2), (XT1, XT2), (XT3, XT4), (XT5, XT6)],
     'html': [(X3, X4), (X1, X2), (XE1, XE2), (XT1, XT2), (XT4, XT3), (XT5, XT6)],
 }
@@ -166,6 +173,13 @@ def run_job(job, seed, sink):
                 for fmt, mode, style, j, ident in all_configs():
                     if i % 16 == job['shard']:
                         sink.fast({'input': inp, 'a': a, 'b': b, 'format': fmt, 'mode': mode, 'style': style, 'j': j, 'identical': ident})
+                    i += 1
+                # the same pair with status output on and real output streams (file descriptors): this is what a terminal or
+                # a pipe gets - the Printer then buffers lines and writes them through tqdm.write
+                for fmt, mode, style in itertools.product(FORMATS, MODES, (None, '--no-color')):
+                    if i % 16 == job['shard']:
+                        sink.fast({'input': inp, 'a': a, 'b': b, 'format': fmt, 'mode': mode, 'style': style, 'j': False, 'identical': False,
+                                   'status': True})
                     i += 1
         return
     sets = []
@@ -247,7 +261,7 @@ def check(case):
         out.skipped = 'not-serialisable'
         return out
     pa, pb = cli.write_file(da, cli.EXT[inp], name='A'), cli.write_file(db, cli.EXT[inp], name='B')
-    args = [pa, pb, '--no-status']
+    args = [pa, pb] if case.get('status') else [pa, pb, '--no-status']
     if case.get('format'):
         args += ['--format', case['format']]
     if case.get('mode', 'full') != 'full':
@@ -257,7 +271,7 @@ def check(case):
     if case.get('j'):
         args.append('-j')
     try:
-        r = cli.run_main(args)
+        r = cli.run_main(args, real_streams=bool(case.get('status')))
     finally:
         cli.cleanup_files(pa, pb)
     shown = ' '.join(a for a in args[2:])
@@ -268,5 +282,7 @@ def check(case):
     eff = case.get('format') or inp
     out.nontrivial = eff != inp and not case.get('identical')
     out.label('in:' + inp, 'out:' + eff, 'mode:' + case.get('mode', 'full'))
+    if case.get('status'):
+        out.label('status-on-real-streams')
     out.info = {'rc': r.rc, 'out_len': len(r.out)}
     return out
